@@ -165,10 +165,13 @@ private:
       if(!WrapperType::allowTargetResize)
         throw std::runtime_error("Non-matching dimensions in SU_vector assignment");
       //can resize
-      if(isinit)
+      if(isinit){
         deallocate_mem();
-      dim=proxy.suv1.dim;
-      size=proxy.suv1.size;
+        //remain a valid, empty vector in case obtaining new storage fails
+        isinit=false;
+        dim=0;
+        size=0;
+      }
       if(proxy.mayStealArg1()){ //if the operation is component-wise and suv1 is an rvalue
         components=proxy.suv1.components; //take suv1's backing storage
         ptr_offset=proxy.suv1.ptr_offset;
@@ -186,9 +189,11 @@ private:
           const_cast<SU_vector&>(proxy.suv2).isinit=false; //complete the theft
       }
       else{
-        alloc_aligned(dim,size,components,ptr_offset);
+        alloc_aligned(proxy.suv1.dim,proxy.suv1.size,components,ptr_offset);
         isinit=true;
       }
+      dim=proxy.suv1.dim;
+      size=proxy.suv1.size;
     }
     //evaluate in place
     proxy.compute(detail::vector_wrapper<WrapperType>{dim,components});
